@@ -23,7 +23,7 @@ LEAN_TARGETS = ['CfVerif.Props.C09']
 PROPS_MODULES = ['CfVerif.Props.C09']
 DRIVER = 'Driver/C09.lean'
 REQUIRED_THEOREMS = ['CfVerif.C09.matcher_conditions', 'CfVerif.C09.matcher_groups', 'CfVerif.C09.matcher_partition', 'CfVerif.C09.group_contents',
-                     'CfVerif.C09.linking_outcome', 'CfVerif.C09.linking_iff', 'CfVerif.C09.unlinked_rejected', 'CfVerif.C09.estimate_outcome',
+                     'CfVerif.C09.linking_outcome', 'CfVerif.C09.linking_iff', 'CfVerif.C09.unlinked_rejected', 'CfVerif.C09.estimate_outcome', 'CfVerif.C09.estimate_exact_on_consistent_data',
                      'CfVerif.C09.layout_length', 'CfVerif.C09.bsmap_sorted', 'CfVerif.C09.sparsity_columns', 'CfVerif.C09.sparsity_rows',
                      'CfVerif.C09.residual_row_reads', 'CfVerif.C09.sparsity_covers_dependencies',
                      'CfVerif.C09.ippe_rotations_proper', 'CfVerif.C09.ippe_axes', 'CfVerif.C09.ippe_vec_roundtrip', 'CfVerif.C09.ippe_mat_roundtrip']
@@ -822,7 +822,6 @@ def spec_match(meas, max_diff, min_bs):
         if cur is None or ts > cur[0] + max_diff:
             cur = [ts, {}]
             groups.append(cur)
-        cur[1].pop(b, None) if False else None
         cur[1][b] = a
     return [(ts, d) for ts, d in groups if len(d) >= min_bs]
 
@@ -1088,6 +1087,18 @@ def search(ctx):
         ctx.count('search:match')
         if got != want or [list(d) for _, d in got] != [list(d) for _, d in want]:
             ctx.witness('matcher', 'match() differs from the time-window segmentation', {'meas': meas, 'min_bs': mb}, got=str(got)[:400], want=str(want)[:400])
+    # ... and on exactly representable time stamps, including measurements lying exactly on the window boundary
+    for d, mb, meas, dflt, key in gen_match_cases(ctx):
+        if d < 0:
+            continue
+        samples = [lt.LhMeasurement(timestamp=ts / SCALE, base_station_id=b, angles=Tag(a)) for ts, b, a in meas]
+        got = [(g.timestamp * SCALE, list((b, a.tag) for b, a in g.angles_calibrated.items())) for g in
+               sm.LighthouseSampleMatcher.match(samples, max_time_diff=d / SCALE, min_nr_of_bs_in_match=mb)]
+        want = [(float(ts), list(dd.items())) for ts, dd in spec_match(meas, d, mb)]
+        ctx.count('search:match-boundary')
+        if got != want:
+            ctx.witness('matcher', 'match() differs from the time-window segmentation (join iff ts <= group.ts + max_time_diff)',
+                        {'meas': meas, 'max_time_diff': d, 'scale': SCALE, 'min_bs': mb}, got=str(got)[:400], want=str(want)[:400])
     # (2) linking on random co-visibility structures (every sample seen by >= 2 stations): a pose for every station iff linked, else LhException
     for k in range(1500 if thorough else 300):
         samples = [s for s in gen_hypergraph(rng) if len(s) >= 2]
